@@ -20,6 +20,25 @@ With(x, F(_)) == CHOOSE r \in {F(v) : v \in {x}} : TRUE
 Close(A, B, tol) == A.shape = B.shape /\ \A n \in 1..Len(A.data) : AbsI(A.data[n] - B.data[n]) <= tol
 
 -----------------------------------------------------------------------------
+\* predict() on the same kind of integer samples handed over in another dtype / memory layout: same contraction
+FormRunV(c, e, r) ==
+    IF ~(IsTens(r.x) /\ Len(r.x.shape) = Len(c.xs) + 1 /\ FeatShape(r.x) = c.xs
+         /\ \A n \in 1..Len(r.x.data) : AbsI(r.x.data[n]) <= MaxX) THEN "InDomain"
+    ELSE IF r.form = "uint8" /\ \E n \in 1..Len(r.x.data) : r.x.data[n] < 0 THEN "InDomain"
+    ELSE IF r.raised THEN "PredictRaised"
+    ELSE IF ~IsTens(r.pred) THEN "Shapes"
+    ELSE IF ~AllFin(r.pred) THEN "Finite"
+    ELSE IF r.pred.shape # PredictShape(r.x, e.weight) THEN "PredictShape"
+    ELSE With(Predict(r.x, e.weight), LAMBDA P :
+         LET Os == Size(OutDims(r.x, e.weight)) IN
+         IF \E m \in 1..Len(P.data) : AbsI(r.pred.data[m] - P.data[m]) > PredTol(r.x, ((m - 1) \div Os) + 1)
+         THEN "PredictDataForm" ELSE "ok")
+FirstBad(vs) == IF \A k \in DOMAIN vs : vs[k] = "ok" THEN "ok"
+                ELSE vs[CHOOSE k \in DOMAIN vs : vs[k] # "ok" /\ \A m \in 1..(k - 1) : vs[m] = "ok"]
+FormsV(c, e) ==
+    IF {e.forms[k].form : k \in DOMAIN e.forms} # RegDataForms THEN "DataForms"
+    ELSE FirstBad([k \in DOMAIN e.forms |-> FormRunV(c, e, e.forms[k])])
+
 RegV(e) ==
     LET c == e.cfg IN
     IF ~ValidReg(c) THEN "InDomain"
@@ -27,6 +46,7 @@ RegV(e) ==
               /\ \A n \in 1..Len(e.xnew.data) : AbsI(e.xnew.data[n]) <= MaxX) THEN "InDomain"
     ELSE IF e.fit.raised THEN "ok"      \* the property speaks about fitted models ("after fitting"): a fit that
                                        \* raises exposes nothing and carries no obligation (counted by the harness)
+    ELSE IF e.fit.n_iter \notin 1..MaxIter(c.opt) THEN "IterationBudget"
     ELSE IF ~(IsTens(e.weight) /\ e.weight.shape = WeightShape(c)) THEN "WeightShape"
     ELSE IF ~(IsTens(e.pred) /\ IsTens(e.vec) /\ IsTens(e.dense)) THEN "Shapes"
     ELSE IF ~(AllFin(e.weight) /\ AllFin(e.pred) /\ AllFin(e.vec) /\ AllFin(e.dense)) THEN "Finite"
@@ -35,6 +55,7 @@ RegV(e) ==
     ELSE With(Predict(e.xnew, e.weight), LAMBDA P :
          LET Os == Size(OutDims(e.xnew, e.weight)) IN
          IF \E m \in 1..Len(P.data) : AbsI(e.pred.data[m] - P.data[m]) > PredTol(e.xnew, ((m - 1) \div Os) + 1) THEN "Predict"
+         ELSE IF FormsV(c, e) # "ok" THEN FormsV(c, e)
          ELSE IF ~Close(e.dense, e.weight, EqTol) THEN "WeightIsDense"
          ELSE IF ~(e.vec.shape = <<Size(e.weight.shape)>> /\ \A n \in 1..Len(e.vec.data) : AbsI(e.vec.data[n] - e.weight.data[n]) <= EqTol) THEN "VecW"
          ELSE IF ~FactorsOK(e.factors, WeightShape(c), c.model) THEN "FactorShapes"
@@ -65,6 +86,25 @@ RowPermuted(A, B, perm) ==      \* A[a, :] = B[perm[a] + 1, :]
     A.shape = B.shape /\ \A a \in 1..A.shape[1] : \A b \in 1..A.shape[2] : AbsI(Mat(A, a, b) - Mat(B, perm[a] + 1, b)) <= PlsTol
 Shifted(A, B, off) == A.shape = B.shape /\ \A n \in 1..Len(A.data) : AbsI(A.data[n] - off * S - B.data[n]) <= PlsTol
 
+\* base fit: transform(X_train, Y_train) returns (X scores, Y scores) = (X_factors[0], Y_factors[0]); fit_transform of a
+\* fresh estimator returns the same; transform / predict do not depend on the memory layout of the data
+PlsExtraV(c, e) ==
+    LET x == e.extra IN
+    IF x.raised THEN "TransformRaised"
+    ELSE IF ~(IsMat(x.yscores, c.n, c.nc) /\ IsMat(x.xt, c.n, c.nc) /\ IsMat(x.yt, c.n, c.nc)
+              /\ IsMat(x.ftx, c.n, c.nc) /\ IsMat(x.fty, c.n, c.nc)) THEN "Shapes"
+    ELSE IF ~(AllFin(x.yscores) /\ AllFin(x.xt) /\ AllFin(x.yt) /\ AllFin(x.ftx) /\ AllFin(x.fty)) THEN "Finite"
+    ELSE IF ~Close(x.xt, e.base.scores, PlsTol) THEN "TransformIsScores"
+    ELSE IF ~Close(x.yt, x.yscores, PlsTol) THEN "TransformYIsYScores"
+    ELSE IF ~Close(x.ftx, e.base.scores, PlsTol) \/ ~Close(x.fty, x.yscores, PlsTol) THEN "FitTransform"
+    ELSE IF {x.forms[k].form : k \in DOMAIN x.forms} # PlsDataForms THEN "DataForms"
+    ELSE IF \E k \in DOMAIN x.forms : x.forms[k].raised THEN "TransformRaised"
+    ELSE IF \E k \in DOMAIN x.forms : ~(IsMat(x.forms[k].transform, c.n, c.nc) /\ IsMat(x.forms[k].pred, e.mtest, YCols(c))
+                                          /\ AllFin(x.forms[k].transform) /\ AllFin(x.forms[k].pred)) THEN "Shapes"
+    ELSE IF \E k \in DOMAIN x.forms : ~Close(x.forms[k].transform, e.base.scores, PlsTol) THEN "TransformDataForm"
+    ELSE IF \E k \in DOMAIN x.forms : ~Close(x.forms[k].pred, e.base.pred, PlsTol) THEN "PredictDataForm"
+    ELSE "ok"
+
 PlsV(e) ==
     LET c == e.cfg IN
     IF ~ValidPls(c) THEN "InDomain"
@@ -74,6 +114,7 @@ PlsV(e) ==
     ELSE IF \E f \in {e.base, e.shiftx, e.shifty, e.permfit} :
                  ~(AllFin(f.scores) /\ AllFin(f.transform) /\ AllFin(f.yload) /\ AllFin(f.pred) /\ \A m \in 1..Len(c.xs) : AllFin(f.loads[m])) THEN "Finite"
     ELSE IF \E f \in {e.base, e.shiftx, e.shifty, e.permfit} : ~Close(f.transform, f.scores, PlsTol) THEN "TransformIsScores"
+    ELSE IF PlsExtraV(c, e) # "ok" THEN PlsExtraV(c, e)
     ELSE IF \E f \in {e.base, e.shiftx, e.shifty, e.permfit} :
                  ~UnitCols(f.yload) \/ \E m \in 1..Len(c.xs) : ~UnitCols(f.loads[m]) THEN "UnitLoadings"
     ELSE IF ~SameLoads(c, e.base, e.shiftx) \/ ~Close(e.base.scores, e.shiftx.scores, PlsTol) THEN "ShiftXLoadings"
